@@ -3,9 +3,11 @@ pub mod c01;
 pub mod c02;
 pub mod c03;
 pub mod c04;
+pub mod c05;
 pub mod c09;
 pub mod c10;
 pub mod c15;
+pub mod c16;
 
 use crate::runner::{EvidenceMeta, Report, RunCtx};
 
@@ -36,9 +38,11 @@ pub fn run(ctx: &RunCtx) -> Option<PropResult> {
         "C02" => Some(c02::run(ctx)),
         "C03" => Some(c03::run(ctx)),
         "C04" => Some(c04::run(ctx)),
+        "C05" => Some(c05::run(ctx)),
         "C09" => Some(c09::run(ctx)),
         "C10" => Some(c10::run(ctx)),
         "C15" => Some(c15::run(ctx)),
+        "C16" => Some(c16::run(ctx)),
         _ => None,
     }
 }
@@ -50,6 +54,7 @@ pub fn history_profile(prop: &str, phase: &str) -> Option<history::Profile> {
         "C02" => c02::profile(),
         "C03" => c03::profile(),
         "C04" => c04::profile(),
+        "C05" => c05::profile(),
         "C10" => c10::profile(),
         "C15" => c15::profile(),
         _ => return None,
@@ -108,8 +113,10 @@ pub fn replay(ctx: &RunCtx, path: &std::path::Path) -> i32 {
 
 fn replay_other(ctx: &RunCtx, phase: &str, case: &serde_json::Value, dir: &std::path::Path) -> Option<Result<crate::runner::CaseOut, crate::interp::Failure>> {
     match ctx.prop.as_str() {
+        "C05" => c05::replay_other(phase, case, dir, &ctx.findings),
         "C09" => c09::replay_other(phase, case, dir),
         "C10" => c10::replay_other(phase, case, dir),
+        "C16" => c16::replay_other(phase, case, dir, &ctx.findings),
         _ => None,
     }
 }
